@@ -301,8 +301,16 @@ class DensityTauNative:
             raise RuntimeError(f"harness: the {self.backend} backend is not available")
         eminus.config.verbose = "critical"
         rng = np.random.default_rng(seed)
+        bad = []
+        for kset in (([[0.0, 0.0, 0.0], [0.2, 0.1, 0.05], [0.1, -0.3, 0.2]], [0.2, 0.3, 0.5]), ([[0.21, -0.13, 0.17]], [1.0])):
+            bad += self.one(seed, kset, Atoms, xp, orth, get_n_spin, get_n_total, get_n_single, get_tau, get_Ekin)
+        return bad
+
+    def one(self, seed, kset, Atoms, xp, orth, get_n_spin, get_n_total, get_n_single, get_tau, get_Ekin):
+        """One k-point set: three weighted k-points, or ONE k-point that is not Gamma."""
+        rng = np.random.default_rng(seed)
         at = Atoms("He2", [[0.1, 0.2, 0.3], [0.3, 0.1, 3.4]], ecut=3, a=[[6.0, 0.3, 0.1], [0.2, 6.5, 0.4], [0.5, 0.1, 7.0]], unrestricted=True)
-        at.set_k([[0.0, 0.0, 0.0], [0.2, 0.1, 0.05], [0.1, -0.3, 0.2]], [0.2, 0.3, 0.5])
+        at.set_k(*kset)
         at.build()
         W = [xp.asarray(rng.standard_normal((2, len(at.Gk2c[ik]), at.occ.Nstate)) + 1j * rng.standard_normal((2, len(at.Gk2c[ik]), at.occ.Nstate))) for ik in range(at.kpts.Nk)]
         Y = orth(at, W)
@@ -318,7 +326,7 @@ class DensityTauNative:
                        total_vs_single=float(np.abs(nt - n1.sum(axis=(0, 2))).max()), electrons=float(abs(nt.sum() * at.dV - nel)),
                        negative_tau=float(max(0.0, -tau.min())), tau_integral_vs_Ekin=float(abs(tau.sum() * at.dV - ekin) / abs(ekin)))
             if max(err.values()) > 1e-9:
-                bad.append(dict(stage=stage, **err))
+                bad.append(dict(stage=stage, k_points=len(kset[1]), **err))
 
         f0 = rng.uniform(0.1, 1.0, np.shape(at.occ.f))
         f0[0, 0, 0] = 0.0
